@@ -22,21 +22,27 @@ inductive Steps (I : SchedI σ τ) : σ → Env → List (Atom τ) → σ → En
   | shut {s : σ} {e : Env} {as : List (Atom τ)} {s2 : σ} {e2 : Env} (n : Nat)
       (t : Steps I s (e.shutdown n) as s2 e2) : Steps I s e (.shut n :: as) s2 e2
 
-def AllShut (as : List (Atom τ)) : Prop := ∀ a ∈ as, ∃ n, a = Atom.shut n
+/-- a list of shutdown signals, all addressed to nodes satisfying `K` -/
+def AllShut (K : Nat → Prop) (as : List (Atom τ)) : Prop := ∀ a ∈ as, ∃ n, a = Atom.shut n ∧ K n
 
-theorem allShut_nil : AllShut ([] : List (Atom τ)) := by intro a ha; simp at ha
+theorem allShut_nil {K : Nat → Prop} : AllShut K ([] : List (Atom τ)) := by intro a ha; simp at ha
 
-theorem allShut_append {as bs : List (Atom τ)} (ha : AllShut as) (hb : AllShut bs) : AllShut (as ++ bs) := by
+theorem allShut_append {K : Nat → Prop} {as bs : List (Atom τ)} (ha : AllShut K as) (hb : AllShut K bs) : AllShut K (as ++ bs) := by
   intro a h
   rcases List.mem_append.1 h with h | h
   · exact ha a h
   · exact hb a h
 
-theorem allShut_cons {n : Nat} {as : List (Atom τ)} (ha : AllShut as) : AllShut (Atom.shut n :: as) := by
+theorem allShut_cons {K : Nat → Prop} {n : Nat} {as : List (Atom τ)} (hn : K n) (ha : AllShut K as) : AllShut K (Atom.shut n :: as) := by
   intro a h
   rcases List.mem_cons.1 h with h | h
-  · exact ⟨n, h⟩
+  · exact ⟨n, h, hn⟩
   · exact ha a h
+
+theorem AllShut.mono {K K' : Nat → Prop} {as : List (Atom τ)} (h : AllShut K as) (hk : ∀ n, K n → K' n) : AllShut K' as := by
+  intro a ha
+  obtain ⟨n, h1, h2⟩ := h a ha
+  exact ⟨n, h1, hk n h2⟩
 
 variable {I : SchedI σ τ}
 
@@ -48,15 +54,15 @@ theorem Steps.append {s s1 s2 : σ} {e e1 e2 : Env} {as bs : List (Atom τ)}
   | shut n _ ih => exact Steps.shut n (ih b)
 
 theorem steps_shutdownAll (s : σ) (e : Env) (ns : List Nat) :
-    Steps I s e (ns.map Atom.shut) s (e.shutdownAll ns) ∧ AllShut (ns.map (Atom.shut (τ := τ))) := by
+    Steps I s e (ns.map Atom.shut) s (e.shutdownAll ns) ∧ AllShut (· ∈ ns) (ns.map (Atom.shut (τ := τ))) := by
   induction ns generalizing e with
   | nil => exact ⟨Steps.nil s e, allShut_nil⟩
   | cons n t ih =>
     obtain ⟨i1, i2⟩ := ih (e.shutdown n)
-    exact ⟨Steps.shut n i1, allShut_cons i2⟩
+    exact ⟨Steps.shut n i1, allShut_cons (by simp) (i2.mono (fun m hm => by simp [hm]))⟩
 
 theorem steps_triggerShutdown (st : State σ τ) :
-    ∃ as, AllShut as ∧ Steps I st.sched st.env as (triggerShutdown I st).sched (triggerShutdown I st).env := by
+    ∃ as, AllShut (· ∈ I.nodes st.sched) as ∧ Steps I st.sched st.env as (triggerShutdown I st).sched (triggerShutdown I st).env := by
   unfold triggerShutdown
   split
   · exact ⟨[], allShut_nil, Steps.nil _ _⟩
@@ -68,7 +74,7 @@ theorem steps_callSched {st st' : State σ τ} {op : SOp τ} {r : Option τ} (h 
   Steps.call (callSched_fields I h).1 (Steps.nil _ _)
 
 theorem steps_restartOrStop (st : State σ τ) (n : Nat) :
-    ∃ as, AllShut as ∧ Steps I st.sched st.env as (restartOrStop I st n).sched (restartOrStop I st n).env := by
+    ∃ as, AllShut (· ∈ I.nodes st.sched) as ∧ Steps I st.sched st.env as (restartOrStop I st n).sched (restartOrStop I st n).env := by
   rcases restartOrStop_cases I st n with ⟨b, hh⟩ | hh
   · rw [hh]
     exact steps_triggerShutdown (I := I)
@@ -87,13 +93,14 @@ theorem afterHandler_sched' (I : SchedI σ τ) (st : State σ τ) : (afterHandle
   split <;> split <;> simp [(triggerShutdown_fields I _).2.1]
 
 theorem steps_afterHandler (st : State σ τ) :
-    ∃ as, AllShut as ∧ Steps I st.sched st.env as (afterHandler I st).sched (afterHandler I st).env := by
+    ∃ as, AllShut (· ∈ I.nodes st.sched) as ∧ Steps I st.sched st.env as (afterHandler I st).sched (afterHandler I st).env := by
   unfold afterHandler
   simp only
   split
   · split
     · obtain ⟨a1, h1, s1⟩ := steps_triggerShutdown (I := I) st
       obtain ⟨a2, h2, s2⟩ := steps_triggerShutdown (I := I) (triggerShutdown I st)
+      rw [(triggerShutdown_fields I st).2.1] at h2
       exact ⟨a1 ++ a2, allShut_append h1 h2, s1.append s2⟩
     · exact steps_triggerShutdown st
   · split
@@ -102,23 +109,29 @@ theorem steps_afterHandler (st : State σ τ) :
 
 /-- the atoms of `worker_errordown` -/
 theorem steps_errordown {st st' : State σ τ} {n : Nat} {rq : Bool} (he : errordown I st n rq = .ok st') :
-    ∃ as t, AllShut t ∧ Steps I st.sched st.env as st'.sched st'.env ∧
+    ∃ as t, AllShut (· ∈ I.nodes st'.sched) t ∧ Steps I st.sched st.env as st'.sched st'.env ∧
       (as = t ∨ as = Atom.call (.removeNode n) :: t ∨ ∃ x, rq = true ∧ as = Atom.call (.removeNode n) :: Atom.call (.markPending x) :: t) := by
   unfold errordown at he
   simp only at he
   split at he
   · -- KeyError swallowed
     obtain ⟨t, ht, hs⟩ := steps_restartOrStop (I := I) ({ st with pubs := st.pubs ++ [Pub.nodedown n true] } : State σ τ) n
-    exact ⟨t, t, ht, steps_removeActive hs he, Or.inl rfl⟩
+    have hsch : st'.sched = st.sched := by
+      rw [(removeActive_fields he).2.1, (restartOrStop_fields I _ n).2.1]
+    exact ⟨t, t, by rw [hsch]; exact ht, steps_removeActive hs he, Or.inl rfl⟩
   · simp at he
   · rename_i st1 hc
     obtain ⟨t, ht, hs⟩ := steps_restartOrStop (I := I) st1 n
     have h1 := steps_callSched hc
-    exact ⟨_, t, ht, steps_removeActive (h1.append hs) he, Or.inr (Or.inl rfl)⟩
+    have hsch : st'.sched = st1.sched := by
+      rw [(removeActive_fields he).2.1, (restartOrStop_fields I _ n).2.1]
+    exact ⟨_, t, by rw [hsch]; exact ht, steps_removeActive (h1.append hs) he, Or.inr (Or.inl rfl)⟩
   · rename_i st1 x hc
     obtain ⟨st2, h2, h3⟩ := bind_ok.1 he
     have h1 := steps_callSched hc
     obtain ⟨t, ht, hs⟩ := steps_restartOrStop (I := I) st2 n
+    have hsch : st'.sched = st2.sched := by
+      rw [(removeActive_fields h3).2.1, (restartOrStop_fields I _ n).2.1]
     unfold handleCrashItem at h2
     obtain ⟨st3, h4, h5⟩ := map_ok.1 h2
     subst h5
@@ -127,28 +140,34 @@ theorem steps_errordown {st st' : State σ τ} {n : Nat} {rq : Bool} (he : error
       obtain ⟨a, ha, hb⟩ := map_ok.1 h4
       subst hb
       have h6 := steps_callSched (I := I) (show callSched I st1 (.markPending x) = .ok (a.1, a.2) by rw [ha])
-      exact ⟨_, t, ht, steps_removeActive ((h1.append h6).append hs) h3, Or.inr (Or.inr ⟨x, hrq, rfl⟩)⟩
+      exact ⟨_, t, by rw [hsch]; exact ht, steps_removeActive ((h1.append h6).append hs) h3, Or.inr (Or.inr ⟨x, hrq, rfl⟩)⟩
     · simp only [Except.ok.injEq] at h4; subst h4
-      exact ⟨_, t, ht, steps_removeActive (h1.append hs) h3, Or.inr (Or.inl rfl)⟩
+      exact ⟨_, t, by rw [hsch]; exact ht, steps_removeActive (h1.append hs) h3, Or.inr (Or.inl rfl)⟩
+
+/-- whom the shutdown signals of an iteration are addressed to: scheduler nodes, or the worker that has just reported ready
+    while the session is shutting down -/
+def TgtK (I : SchedI σ τ) (st st' : State σ τ) (ev : Event τ) (n : Nat) : Prop :=
+  n ∈ I.nodes st.sched ∨ n ∈ I.nodes st'.sched ∨ ev = .workerready n
 
 /-- the scheduler calls an event leads to, in order, between shutdown signals -/
 def Shape (I : SchedI σ τ) (st st' : State σ τ) (ev : Event τ) (as : List (Atom τ)) : Prop :=
   match ev with
-  | .workerready n => ∃ t, AllShut t ∧
+  | .workerready n => ∃ t, AllShut (TgtK I st st' ev) t ∧
       ((st.shuttingdown = true ∧ as = Atom.shut n :: t) ∨ (st.shuttingdown = false ∧ as = Atom.call (.addNode n) :: t))
-  | .complete n i slow => ∃ t, AllShut t ∧ as = Atom.call (.markComplete n i slow) :: t
-  | .unscheduled n is => ∃ t, AllShut t ∧ as = Atom.call (.removePending n is) :: t
-  | .collectionfinish n ids => ∃ t, AllShut t ∧
+  | .complete n i slow => ∃ t, AllShut (TgtK I st st' ev) t ∧ as = Atom.call (.markComplete n i slow) :: t
+  | .unscheduled n is => ∃ t, AllShut (TgtK I st st' ev) t ∧ as = Atom.call (.removePending n is) :: t
+  | .collectionfinish n ids => ∃ t, AllShut (TgtK I st st' ev) t ∧
       (((st.shuttingdown = true ∨ n ∉ I.nodes st.sched) ∧ as = t) ∨
        (st.shuttingdown = false ∧ n ∈ I.nodes st.sched ∧ I.collectionIsCompleted st'.sched = false ∧
           as = Atom.call (.addNodeCollection n ids) :: t) ∨
        (st.shuttingdown = false ∧ n ∈ I.nodes st.sched ∧
           as = Atom.call (.addNodeCollection n ids) :: Atom.call .schedule :: t))
-  | .errordown n rq => ∃ t, AllShut t ∧
+  | .errordown n rq => ∃ t, AllShut (TgtK I st st' ev) t ∧
       (as = t ∨ as = Atom.call (.removeNode n) :: t ∨
         ∃ x, rq = true ∧ as = Atom.call (.removeNode n) :: Atom.call (.markPending x) :: t)
-  | .workerfinished n _ _ _ => ∃ t0 t, AllShut t0 ∧ AllShut t ∧ (as = t0 ++ t ∨ as = t0 ++ Atom.call (.removeNode n) :: t)
-  | _ => AllShut as
+  | .workerfinished n _ _ _ => ∃ t0 t, AllShut (TgtK I st st' ev) t0 ∧ AllShut (TgtK I st st' ev) t ∧
+      (as = t0 ++ t ∨ as = t0 ++ Atom.call (.removeNode n) :: t)
+  | _ => AllShut (TgtK I st st' ev) as
 
 /-- **One loop iteration is a sequence of atoms whose scheduler calls are determined by the event.** -/
 theorem loopOnce_steps {st st' : State σ τ} {ev : Event τ} (h : loopOnce I st ev = .ok st') :
@@ -158,7 +177,14 @@ theorem loopOnce_steps {st st' : State σ τ} {ev : Event τ} (h : loopOnce I st
   · simp at h
   obtain ⟨a, ha, hb⟩ := map_ok.1 h
   subst hb
-  obtain ⟨ta, hta, sa⟩ := steps_afterHandler (I := I) a
+  obtain ⟨ta, hta0, sa⟩ := steps_afterHandler (I := I) a
+  have hfin : (afterHandler I a).sched = a.sched := afterHandler_sched' I a
+  -- shutdown signals addressed to nodes of the final scheduler state
+  have liftK : ∀ {t : List (Atom τ)}, AllShut (· ∈ I.nodes a.sched) t → AllShut (TgtK I st (afterHandler I a) ev) t :=
+    fun ht => ht.mono (fun n hn => Or.inr (Or.inl (by rw [hfin]; exact hn)))
+  have liftK0 : ∀ {t : List (Atom τ)}, AllShut (· ∈ I.nodes st.sched) t → AllShut (TgtK I st (afterHandler I a) ev) t :=
+    fun ht => ht.mono (fun n hn => Or.inl hn)
+  have hta := liftK hta0
   cases ev with
   | workerready n =>
     simp only [handle] at ha
@@ -179,7 +205,7 @@ theorem loopOnce_steps {st st' : State σ τ} {ev : Event τ} (h : loopOnce I st
       obtain ⟨t0, ht0, s0⟩ := steps_triggerShutdown (I := I)
         ({ st with shouldstop := some (Stop.keyboard n), pubs := st.pubs ++ [Pub.nodedown n false] } : State σ τ)
       obtain ⟨as, t, ht, hs, hshape⟩ := steps_errordown ha
-      refine ⟨t0 ++ as ++ ta, (s0.append hs).append sa, t0, t ++ ta, ht0, allShut_append ht hta, ?_⟩
+      refine ⟨t0 ++ as ++ ta, (s0.append hs).append sa, t0, t ++ ta, liftK0 ht0, allShut_append (liftK ht) hta, ?_⟩
       rcases hshape with rfl | rfl | ⟨x, hx, _⟩
       · left; simp
       · right; simp
@@ -211,7 +237,7 @@ theorem loopOnce_steps {st st' : State σ τ} {ev : Event τ} (h : loopOnce I st
   | errordown n rq =>
     simp only [handle] at ha
     obtain ⟨as, t, ht, hs, hshape⟩ := steps_errordown ha
-    refine ⟨as ++ ta, hs.append sa, t ++ ta, allShut_append ht hta, ?_⟩
+    refine ⟨as ++ ta, hs.append sa, t ++ ta, allShut_append (liftK ht) hta, ?_⟩
     rcases hshape with rfl | rfl | ⟨x, hx, rfl⟩
     · left; rfl
     · right; left; simp
